@@ -224,9 +224,10 @@ func vpMsgTerm(r *raft, pre vpRec, x *pb.Message, m *pb.Message) {
 // ---------------------------------------------------------------------------
 
 func vpDefaultOpts(role StateType) vpOpts {
-	o := vpOpts{role: role, shapes: []int{0}, ls: 2, lu: 2, votes: true}
+	o := vpOpts{role: role, shapes: []int{0}, ls: 1, lu: 1}
 	if role == StateLeader {
 		o.leaderPr = true
+		o.inflPeers = 1
 	}
 	return o
 }
@@ -322,6 +323,9 @@ func vpCell(role StateType, typ pb.MessageType) {
 	}
 	if typ == pb.MsgSnap {
 		o.unstSnap = true
+	}
+	if typ == pb.MsgVoteResp || typ == pb.MsgPreVoteResp {
+		o.votes = true
 	}
 	vpStepCell(role, o, mo)
 }
